@@ -106,12 +106,8 @@ def value_half(c):
         c.cov["traces_validated_against_impl"] += 1
         if tr.violated or f"{len(pending) + 1} distinct states" not in tr.stdout:
             raise vf.ToolError("ApiValueTrace did not consume the whole trace:\n" + tr.stdout[-2000:])
-        for ln in tr.stdout.splitlines():
-            if not ln.startswith('<<"REJECTED"'):
-                continue
-            parts = ln.strip("<>").split(",", 2)
-            bad = pending[int(parts[1].strip()) - 1]
-            why = parts[2].strip().strip('"')
+        for n, why in vf.rejected(tr.stdout):
+            bad = pending[n - 1]
             full = res[bad["i"]]
             s = sig(bad["case"], why)
             if s in seen:
